@@ -5,7 +5,7 @@ From MV Require Import Base.Bytes Model.View Proofs.ViewBase Proofs.ViewSpec Pro
 Import ListNotations.
 
 Definition post (o : op) (s s' : state) : Prop :=
-  Inv s' /\ (M3 s -> marked_ok s o -> M3 s') /\ (Fresh s -> fresh_ok s o -> Fresh s')
+  Inv s' /\ (M3 s -> M3 s') /\ (Fresh s -> fresh_ok s o -> Fresh s')
   /\ notif (raw_ids s) (log s') (raw_ids s').
 
 Definition same_mem (s s' : state) : Prop := forall id, In id (raw_ids s') <-> In id (raw_ids s).
@@ -36,7 +36,7 @@ Lemma post_simple o s s' : Inv s -> updm s s' -> view s' = view s -> FocusOk s' 
 Proof.
   intros I U V F Nt. pose proof (u_cfg _ _ (um_upd _ _ U)) as Cf. split; [|split; [|split]].
   - eapply Inv_transfer; eauto.
-  - intros H _. eapply M3_cfg; eauto.
+  - intros H. eapply M3_cfg; eauto.
   - intros H _. eapply Fresh_upd; [apply (um_upd _ _ U) | exact H].
   - exact Nt.
 Qed.
@@ -104,7 +104,7 @@ Proof.
   exists s'. split; [exact E|]. split; [|split; [|split]].
   - constructor; auto. eapply Sids_upd; [apply (um_upd _ _ U)|].
     intros id H. rewrite Hst. apply (i_sids _ I). unfold settings_ids in *. rewrite Hse in H. exact H.
-  - intros _ _. exact A3.
+  - intros _. exact A3.
   - intros Fr _. eapply Fresh_upd; [apply (um_upd _ _ U)|].
     intros id o' k H. unfold attr. rewrite Hh. apply Fr. unfold cache_of in *. rewrite Hse in H. exact H.
   - rewrite Lg, Hl, L. apply notif_refresh. auto.
@@ -135,7 +135,7 @@ Proof.
     + unfold FocusOk in *. simpl. exact F1.
     + intros id H. unfold raw_ids in H. simpl in H. rewrite V1 in H. destruct H.
     + intros id H. simpl in H. rewrite S1 in H. destruct H.
-  - intros _ _ _ id H. unfold raw_ids in H. simpl in H. rewrite V1 in H. destruct H.
+  - intros _ _ id H. unfold raw_ids in H. simpl in H. rewrite V1 in H. destruct H.
   - intros _ _ id o k H.
     rewrite (cache_of_filter _ (fun i => memN i (store (set_log (log s1 ++ [StoreRefresh]) s1)))) in H.
     simpl in H. rewrite S1 in H. simpl in H. discriminate.
@@ -164,7 +164,7 @@ Proof.
     + exact F.
     + eapply M1_cfg; [exact Cft | reflexivity | exact A1].
     + eapply M2_cfg; [exact Cft | reflexivity | exact A2].
-  - intros _ _. eapply M3_cfg; [exact Cft | reflexivity | exact A3].
+  - intros _. eapply M3_cfg; [exact Cft | reflexivity | exact A3].
   - intros Fr _ id o k H. rewrite (cache_of_filter t p) in H. destruct (p id); [|discriminate].
     change (attr (set_settings (filter (fun e => p (fst e)) (settings t)) t) id) with (attr s1 id).
     assert (Fr1 : Fresh s1) by (eapply Fresh_upd; [apply (um_upd _ _ U) | exact Fr]).
@@ -212,7 +212,7 @@ Proof.
     + intros id H. rewrite At, Hf. apply (i_m1 _ I), Sm, H.
     + intros id H Hw. apply Sm. apply (i_m2 _ I); [rewrite <- Hs; exact H|].
       unfold wanted in *. rewrite At, Hf, Hsm in Hw. exact Hw.
-  - intros H3 _ Hs3 id H. rewrite At. apply H3; [rewrite <- Hsm; exact Hs3 | apply Sm, H].
+  - intros H3 Hs3 id H. rewrite At. apply H3; [rewrite <- Hsm; exact Hs3 | apply Sm, H].
   - intros Fr _ id o' k H. rewrite At. change (cache_of s' id o') with (cache_of s1 id o') in H.
     destruct (u_new _ _ (um_upd _ _ (e_updm _ _ X)) _ _ _ H) as [H1|[_ H1]]; [apply Fr; exact H1 | exact H1].
   - change (log s') with (log s1). rewrite (e_log _ _ X). simpl. rewrite L. apply n_done. symmetry. exact P.
